@@ -330,7 +330,7 @@ func c10Test(t *testing.T, kind string) {
 			c = genC10Limits(rt)
 		}
 		v, nt, inc := runC10(c)
-		if inc {
+		if inc || (v != nil && transportNoise(v.Message)) {
 			col.Inconclusive()
 			return
 		}
